@@ -8,6 +8,7 @@ import subprocess
 
 import checks_rules as R
 import checks_search as S
+import checks_uci as UC
 import chessutil
 import vcommon
 from vcommon import Run, ToolError, log
@@ -48,7 +49,7 @@ def mk(pid, tier, replay):
     return Run(pid, tier, "model_checking", replay=bool(replay) or bool(os.environ.get("VERIF_NO_EVIDENCE")))
 
 
-RULE_TEXT = ("engine-driven random playouts (biased towards castling, en passant, promotion, double steps, corner rook "
+RULE_TEXT = ("seeded random members of three geometric families (kings and corner rooks with rights plus officers; a double step next to an enemy pawn with kings/sliders on the lines; pawns before promotion with officers on the last rank) each with all its successors (chains of length 1, i.e. two-ply behaviour); exhaustive chains of length 2 (all successors of all successors, budget-capped) from every seed with at most 10 men, plus engine-driven random playouts (biased towards castling, en passant, promotion, double steps, corner rook "
              "moves/captures, repetitions) from %d seed FENs, followed through the engine's own successor objects; every "
              "visited position is one gen event judged by TLC against Chess.tla; events_validated / event_counts are "
              "measured by the specification itself")
@@ -59,8 +60,11 @@ def c01(tier, replay):
     if replay:
         R.replay_walk(run, "C01", replay)
         return run.finish()
-    n = 320 if tier == "quick" else 3000
-    totals, _ = R.rules_trace(run, "C01", ["--playouts", n, "--plies", 40], "playout")
+    q = tier == "quick"
+    totals, summ = R.rules_trace(run, "C01", ["--playouts", 60 if q else 3000, "--plies", 40, "--bfs", 2, "--bfs-budget", 6000 if q else 60000,
+                                              "--family", 330 if q else 6000], "playout")
+    run.cov["bfs_chain_events"] = summ.get("bfs_events", 0)
+    run.cov["family_chain_events"] = summ.get("family_events", 0)
     R.need(totals, ["gen", "castle", "ep", "promo", "incheck"])
     model_game(run, tier)
     run.cov["rule"] = RULE_TEXT % n_seeds() + "; compared: descriptor set = Chess!Legal both ways, multiplicity"
@@ -72,8 +76,11 @@ def c02(tier, replay):
     if replay:
         R.replay_walk(run, "C02", replay)
         return run.finish()
-    n = 200 if tier == "quick" else 2000
-    totals, _ = R.rules_trace(run, "C02", ["--playouts", n, "--plies", 40, "--text", 1], "playout")
+    q = tier == "quick"
+    totals, summ = R.rules_trace(run, "C02", ["--playouts", 60 if q else 2000, "--plies", 40, "--text", 1, "--bfs", 2, "--bfs-budget", 4000 if q else 60000,
+                                              "--family", 200 if q else 6000], "playout")
+    run.cov["bfs_chain_events"] = summ.get("bfs_events", 0)
+    run.cov["family_chain_events"] = summ.get("family_events", 0)
     R.need(totals, ["gen", "castle", "ep", "promo"])
     model_game(run, tier)
     run.cov["rule"] = RULE_TEXT % n_seeds() + ("; compared per successor: placement, side, rights, ep target, king cache = "
@@ -273,7 +280,8 @@ def cli_events(binary, inputs, out_path):
 
 
 CHECKS = {"C01": c01, "C02": c02, "C04": c04, "C05": c05, "C06": c06, "C13": c13, "C14": c14, "C15": c15,
-          "C07": S.c07, "C10": S.c10, "C11": S.c11, "C12": S.c12, "C18": S.c18}
+          "C07": S.c07, "C10": S.c10, "C11": S.c11, "C12": S.c12, "C18": S.c18,
+          "C03": UC.c03, "C08": UC.c08, "C09": UC.c09, "C16": UC.c16, "C17": UC.c17}
 
 
 def setup():
